@@ -256,3 +256,16 @@ std::string check_residual(const std::vector<cx> &Ahat, int n, const std::vector
     }
     return "";
 }
+
+// Overflow guard: the rounding-error bounds hold barring overflow. If the factors / solution contain infinities or
+// finite entries of enormous magnitude, overflow is a legitimate explanation and the numerical oracles are skipped
+// (and counted). A NaN among entries of modest size is NOT excused.
+template <class K> bool overflow_plausible(const std::vector<cx> &a, const std::vector<cx> &b, const std::vector<cx> &c) {
+    const long double T = sizeof(typename K::real) == 4 ? 1e15L : 1e100L;
+    for (const std::vector<cx> *v : {&a, &b, &c}) for (const cx &z : *v) {
+        long double m = std::max(std::fabs(z.real()), std::fabs(z.imag()));
+        if (std::isinf((double)z.real()) || std::isinf((double)z.imag()) || std::isinf(z.real()) || std::isinf(z.imag())) return true;
+        if (m == m && m > T) return true;
+    }
+    return false;
+}
